@@ -399,6 +399,29 @@ def harness_build(features=(), profile="release", timeout=3000):
     return dst, (out + err)[-2000:]
 
 
+MIRI_CRATE = os.path.join(VERIF, "miri")
+
+
+def miri_run(flags="", timeout=3000):
+    """Runs /verif/miri (a program that drives every unsafe block of the crate through the
+    public API on embedded maps) under Miri against the current source tree.
+    Returns (ok, output).  Supporting evidence for C11, not a proof."""
+    mdir = MIRI_CRATE
+    if REPO != "/repo":
+        mdir = os.path.join(CACHE, "miri-src")
+        shutil.rmtree(mdir, ignore_errors=True)
+        shutil.copytree(MIRI_CRATE, mdir)
+        ct = open(os.path.join(mdir, "Cargo.toml")).read().replace('path = "/repo"', f'path = "{REPO}"')
+        open(os.path.join(mdir, "Cargo.toml"), "w").write(ct)
+    env = {"CARGO_TARGET_DIR": TARGET + "-miri", "CARGO_NET_OFFLINE": "true"}
+    if flags:
+        env["MIRIFLAGS"] = flags
+    rc, out, err, dt = sh(["cargo", "+nightly", "miri", "run", "--offline"], cwd=mdir, timeout=timeout, env=env)
+    text = out + err
+    ok = rc == 0 and "miri-ok" in out and "Undefined Behavior" not in text
+    return ok, text
+
+
 def harness_run(binary, args, timeout=1800, input=None, env=None):
     rc, out, err, dt = sh([binary] + [str(a) for a in args], timeout=timeout, input=input, env=env)
     return rc, out, err, dt
